@@ -1395,6 +1395,12 @@ func (gs *GossipSubRouter) rpcs(msg *Message) iter.Seq2[peer.ID, *RPC] {
 
 			csum := computeChecksum(gs.p.idGen.ID(msg))
 			for p := range gmap {
+				// A mesh or fanout member may have left the topic without
+				// sending us a PRUNE (or grafted without ever subscribing);
+				// don't push messages to peers that are not in the topic.
+				if _, inTopic := tmap[p]; !inTopic {
+					continue
+				}
 				// Check if it has already received an IDONTWANT for the message.
 				// If so, don't send it to the peer
 				if _, ok := gs.unwanted[p][csum]; ok {
